@@ -234,14 +234,8 @@ def run_script(script, comp='e2e'):
         return ['err', type(innerex).__name__]
 
     saved_ar = dispatch.AsyncResult
-    orig_open = fakenet.FakeScalesSocket.open
     if script.get('open_delay'):
-        delay = script['open_delay'] / 1000.0
-
-        def slow_open(self):
-            gevent.sleep(delay)
-            return orig_open(self)
-        fakenet.FakeScalesSocket.open = slow_open
+        fakenet.NET.connect_delay = script['open_delay'] / 1000.0
     try:
         rt.advance_to_us((rt.now_us() // 10000 + 1) * 10000 + 3700)
         if stack == 'thrift':
@@ -320,7 +314,7 @@ def run_script(script, comp='e2e'):
         rt.drain()
     finally:
         dispatch.AsyncResult = saved_ar
-        fakenet.FakeScalesSocket.open = orig_open
+        fakenet.NET.connect_delay = 0
     rt.kill_stragglers()
     tags.add(stack)
     return {'comp': comp, 'cfg': stack, 'steps': [[e, 'ok'] for e in events], 'tags': sorted(tags)}
